@@ -1,6 +1,6 @@
 (* Executable entry points compared with the implementation by ./check C15. *)
 From ZV Require Import Prelude GoSem Paging.
-From ZV Require Export Handler Frame Session BaseMsg.
+From ZV Require Export Handler Frame Session BaseMsg EncHs.
 From ZV.gen Require Import Consts.
 Open Scope Z_scope.
 
@@ -92,3 +92,17 @@ Definition setup_res_eqb (a b : setup_res) : bool :=
   | SRefused x, SRefused y => oz_eqb x y
   | _, _ => false
   end.
+
+(* ---- encryption handshake (EncHs.v): one connection through setupConn. coarse: the level at which the remote side only
+   sees peer / not a peer. out: 0 peer, 1 refused in the encryption handshake, 2 refused after it, 9 panic *)
+Definition conn_code (coarse : bool) (r : conn_res) : Z :=
+  match r with CPeer => 0 | CRefusedEnc => 1 | CRefusedProto => if coarse then 1 else 2 | CPanic => 9 end.
+(* in: (coarse, auth bytes that arrive, envelope opens, static key is a point, signature recovers, first frame verifies,
+        hello: size, code, payload, decodes, version, zero identity, identity matches) *)
+Definition auth_listen_run (i : bool * Z * bool * bool * bool * bool * Z * Z * list Z * bool * Z * bool * bool) : Z :=
+  let '(coarse, got, d, k, s, m, size, code, p, dec, v, z, im) := i in
+  conn_code coarse (listen_conn got d k s m size code p dec v z im).
+(* in: (coarse, response bytes that arrive, envelope opens, ephemeral key is a point, first frame verifies, hello ...) *)
+Definition auth_dial_run (i : bool * Z * bool * bool * bool * Z * Z * list Z * bool * Z * bool * bool) : Z :=
+  let '(coarse, got, d, e, m, size, code, p, dec, v, z, im) := i in
+  conn_code coarse (dial_conn got d e m size code p dec v z im).
